@@ -30,7 +30,7 @@ type Input struct {
 func (in *Input) Case(parser string) core.Case {
 	return core.Case{Kind: "parse", Args: map[string]string{
 		"parser": parser, "family": in.Family, "class": in.Class, "detail": in.Detail, "base": in.Base,
-		"vector": fmt.Sprint(in.Vector), "input": core.HexFull(in.Bytes), "devclass": in.DevClass(), "aux": fmt.Sprint(in.Aux),
+		"vector": fmt.Sprint(in.Vector), "input": core.HexFull(in.Bytes), "devclass": in.DevClass(), "aux": fmt.Sprint(in.Aux), "baselen": fmt.Sprint(in.BaseLen),
 	}}
 }
 
